@@ -423,7 +423,9 @@ def stepLineRaw (d : DState) (line : String) : DState × String :=
       else stepReq d f
     | _ => stepReq d f
 
-def stepLine (d : DState) (line : String) : DState × String :=
+def stepLine (d : DState) (line0 : String) : DState × String :=
+  -- `V~v`: a typed value sent together with VoidVal = true; the typed value is what counts
+  let line := line0.replace "~v|" "|"
   if (line.splitOn "x@").length > 1 || d.longSeen then
     let (d', out) := stepLineRaw { d with longSeen := true } (expandLong line)
     (d', compressLong out)
